@@ -162,7 +162,10 @@ class HllRecorder:
 
     def query(self, s):
         out = self.slots[s].query()
-        self.emit({"ev": "query", "s": s + 1, "out": float(out).hex()})
+        # C02: "identical to that of a fresh sketch": a fresh object given the same registers
+        fresh = impl.hyperloglog.HyperLogLog(self.p, self.seed)
+        fresh.registers[:] = self.slots[s].registers
+        self.emit({"ev": "query", "s": s + 1, "out": float(out).hex(), "fresh": float(fresh.query()).hex()})
 
     def trace(self):
         return {"p": self.p, "seed": list(int(self.seed).to_bytes(8, "little")), "NS": self.NS,
